@@ -42,6 +42,8 @@ class DocPart(C9.WireC09):
         bad = []
         for i, (op, o) in enumerate(zip(hist, impl_out)):
             w = op.split()
+            if o.strip() in ("no-such-object", "bad-op"):
+                continue      # malformed history (dangling object id, e.g. after delta debugging): says nothing about the library
             if o.strip() == "throw":
                 bad.append(("%s/unexpected-throw/%s" % (self.name, w[0]), op[:120], i))
             elif w[0] == "ser" and L.parse_img(o) is None:
